@@ -1247,7 +1247,11 @@ LEVEL_TEXT = ("Proved in Lean 4 about the executable model AslModel.HttpFrame (t
               "fragment) HttpRequest::read yields exactly the decoded path, that query string and that fragment; a path p (not empty, "
               "no NUL, no ..) sent as Url::encode(p) in either mode (full-URL mode: p without ? and #) reaches the handler as p, on "
               "every connection state, with any framing (K: the H line of every req/raw/xchg op prints path, querystring and the "
-              "query dictionary; generated targets carry escapes, queries and #frag?x). "
+              "query dictionary; generated targets carry escapes, queries and #frag?x); query_values_are_c15 / query_values_observed / "
+              "handler_sees_sent_query — the dictionary HttpFrame.parseQuery makes of the query string (what the H line prints next to "
+              "the real handler's request.query) is the one of C15's transcription whenever no key holds a NUL, hence for every sorted "
+              "dictionary d with non-empty NUL-free keys and arbitrary values the query string Url::params(d) (C15's model of it, tied "
+              "by C15's K) is parsed back to exactly d, also through the connection (path and query of one request together). "
               "The model is tied to the real "
               "library on every run by the correspondence check over loopback TCP (real client, real server, raw-socket peers on either "
               "side, every op compared with the compiled model) and the block sizes by the translator.")
@@ -1282,9 +1286,11 @@ LEVEL_NOTE = ("Model lemmas, not property clauses (one-step unfoldings of model 
               "deterministic overlap where one handler sleeps in send() mid-block while others run); OS interleavings are sampled, not "
               "enumerated. (2) bodies of JSON values (C05's encoder: only the transport of the encoded text is checked, oracle J1) and "
               "multipart uploads (random boundary: oracle U1). (3) of the target -> path/query decoding, the split and the path are proved (target_parts_exact, "
-              "encoded_path_observed; Url::decode of malformed escapes is C15's url_decode_total), the query VALUES are not: "
-              "HttpFrame.parseQuery has no theorem here (C15 proves query_roundtrip about its own transcription of Url::parseQuery, C09 "
-              "about its own; K with upper/lower/mixed-case escapes against python's unquote) and the Range header text parser (range_spec / file_response_roundtrip start from the integers b, e); the loop "
+              "encoded_path_observed; Url::decode of malformed escapes is C15's url_decode_total), and the query values for query strings made by Url::params "
+              "(query_values_observed, through the bridge query_values_are_c15 to C15's query_roundtrip); keys that decode to a text "
+              "with a NUL (%00 inside a key) are outside the bridge (the two transcriptions may order them differently) and hand-made "
+              "query strings (pieces without =, empty keys, repeated keys, raw +) are K only, with upper/lower/mixed-case escapes "
+              "against python's unquote and the Range header text parser (range_spec / file_response_roundtrip start from the integers b, e); the loop "
               "of redirect following (at most 4 hops, then 421; only the target of a hop has theorems), OPTIONS/405/whole-file/416 post-processing of HttpServer::serve are in the model and K-validated only. "
               "(4) bodies above 300 KiB (up to 8 MiB) are checked by digest oracle only. (5) exchange_roundtrip assumes no Expect "
               "header (with Expect: 100-continue the interim answer is in serveStep_exact's wire and continue_skipped covers the "
